@@ -93,9 +93,67 @@ package mqtt
 //@   ensures[C05,C10] whole: result == nil && len(b) > 0 ==> evCount("Transport.Write") == 1 && seqEq(evBytes("Transport.Write", 0, 1), seqOf(b))
 //@   ensures[C10] locked: evCount("Transport.Write") >= 1 ==> evIndex("lock", 0) < evIndex("Transport.Write", 0) && evIndex("Transport.Write", evCount("Transport.Write")-1) < evIndex("unlock", 0)
 
+
+//@ func (*signaller).PubAck
+//@   mode int
+//@   props C07
+//@   requires s != nil
+//@   assigns s.chPubAck
+//@   ensures[C07] lookup: result1 == (s.chPubAck != nil && snapHas(guardSnap(s.chPubAck), id)) && (result1 ==> result0 == snapGet(guardSnap(s.chPubAck), id))
+//@   ensures[C07] removed: s.chPubAck != nil ==> forallKey(func(k uint16) bool {
+//@        return mapHas(s.chPubAck, k) == (k != id && snapHas(guardSnap(s.chPubAck), k)) && (!mapHas(s.chPubAck, k) || s.chPubAck[k] == snapGet(guardSnap(s.chPubAck), k)) })
+
+//@ func (*signaller).PubRec
+//@   mode int
+//@   props C07
+//@   requires s != nil
+//@   assigns s.chPubRec
+//@   ensures[C07] lookup: result1 == (s.chPubRec != nil && snapHas(guardSnap(s.chPubRec), id)) && (result1 ==> result0 == snapGet(guardSnap(s.chPubRec), id))
+//@   ensures[C07] removed: s.chPubRec != nil ==> forallKey(func(k uint16) bool {
+//@        return mapHas(s.chPubRec, k) == (k != id && snapHas(guardSnap(s.chPubRec), k)) && (!mapHas(s.chPubRec, k) || s.chPubRec[k] == snapGet(guardSnap(s.chPubRec), k)) })
+
+//@ func (*signaller).PubComp
+//@   mode int
+//@   props C07
+//@   requires s != nil
+//@   assigns s.chPubComp
+//@   ensures[C07] lookup: result1 == (s.chPubComp != nil && snapHas(guardSnap(s.chPubComp), id)) && (result1 ==> result0 == snapGet(guardSnap(s.chPubComp), id))
+//@   ensures[C07] removed: s.chPubComp != nil ==> forallKey(func(k uint16) bool {
+//@        return mapHas(s.chPubComp, k) == (k != id && snapHas(guardSnap(s.chPubComp), k)) && (!mapHas(s.chPubComp, k) || s.chPubComp[k] == snapGet(guardSnap(s.chPubComp), k)) })
+
+//@ func (*signaller).SubAck
+//@   mode int
+//@   props C07
+//@   requires s != nil
+//@   assigns s.chSubAck
+//@   ensures[C07] lookup: result1 == (s.chSubAck != nil && snapHas(guardSnap(s.chSubAck), id)) && (result1 ==> result0 == snapGet(guardSnap(s.chSubAck), id))
+//@   ensures[C07] removed: s.chSubAck != nil ==> forallKey(func(k uint16) bool {
+//@        return mapHas(s.chSubAck, k) == (k != id && snapHas(guardSnap(s.chSubAck), k)) && (!mapHas(s.chSubAck, k) || s.chSubAck[k] == snapGet(guardSnap(s.chSubAck), k)) })
+
+//@ func (*signaller).UnsubAck
+//@   mode int
+//@   props C07
+//@   requires s != nil
+//@   assigns s.chUnsubAck
+//@   ensures[C07] lookup: result1 == (s.chUnsubAck != nil && snapHas(guardSnap(s.chUnsubAck), id)) && (result1 ==> result0 == snapGet(guardSnap(s.chUnsubAck), id))
+//@   ensures[C07] removed: s.chUnsubAck != nil ==> forallKey(func(k uint16) bool {
+//@        return mapHas(s.chUnsubAck, k) == (k != id && snapHas(guardSnap(s.chUnsubAck), k)) && (!mapHas(s.chUnsubAck, k) || s.chUnsubAck[k] == snapGet(guardSnap(s.chUnsubAck), k)) })
+
+//@ func (*signaller).ConnAck
+//@   mode int
+//@   props C07
+//@   inline
+//@   requires s != nil
+
+//@ func (*signaller).PingResp
+//@   mode int
+//@   props C07
+//@   inline
+//@   requires s != nil
+
 //@ func (*BaseClient).serve
 //@   mode int
-//@   props C04 C06
+//@   props C04 C06 C07
 //@   maxpaths 20000
 //@   requires c != nil && c.sig != nil && c.Transport != nil
 //@   assigns nothing
@@ -124,3 +182,28 @@ package mqtt
 //@        sbDel(subBuffer, sb0, itPubRel().ID)
 //@   loop 1 iter[C04] pubrel_unknown: itIsPubRel() && !snapHas(sb0, itPubRel().ID) ==> served() == 0 && written() == 0 && sbSame(subBuffer, sb0)
 //@   loop 1 iter[C04] other: itRead() && itType() != packetPublish && itType() != packetPubRel ==> served() == 0 && written() == 0 && sbSame(subBuffer, sb0)
+//@   loop 1 iter[C07] ack_puback: itRead() && itType() == packetPubAck ==>
+//@        evCount("(*signaller).PubAck") == 1 && evArg[uint16]("(*signaller).PubAck", 0, 1) == evRet[*pktPubAck]("(*pktPubAck).Parse", 0, 0).ID &&
+//@        evCount("select") == ite(evRet[bool]("(*signaller).PubAck", 0, 1), 1, 0) && evCount("send") == 0 &&
+//@        (evCount("select") == 1 ==> evArg[chan *pktPubAck]("select", 0, 0) == evRet[chan *pktPubAck]("(*signaller).PubAck", 0, 0) &&
+//@             (evRet[int]("select", 0, 0) == 0 ==> evRet[*pktPubAck]("select", 0, 1) == evRet[*pktPubAck]("(*pktPubAck).Parse", 0, 0)))
+//@   loop 1 iter[C07] ack_pubrec: itRead() && itType() == packetPubRec ==>
+//@        evCount("(*signaller).PubRec") == 1 && evArg[uint16]("(*signaller).PubRec", 0, 1) == evRet[*pktPubRec]("(*pktPubRec).Parse", 0, 0).ID &&
+//@        evCount("select") == ite(evRet[bool]("(*signaller).PubRec", 0, 1), 1, 0) && evCount("send") == 0 &&
+//@        (evCount("select") == 1 ==> evArg[chan *pktPubRec]("select", 0, 0) == evRet[chan *pktPubRec]("(*signaller).PubRec", 0, 0) &&
+//@             (evRet[int]("select", 0, 0) == 0 ==> evRet[*pktPubRec]("select", 0, 1) == evRet[*pktPubRec]("(*pktPubRec).Parse", 0, 0)))
+//@   loop 1 iter[C07] ack_pubcomp: itRead() && itType() == packetPubComp ==>
+//@        evCount("(*signaller).PubComp") == 1 && evArg[uint16]("(*signaller).PubComp", 0, 1) == evRet[*pktPubComp]("(*pktPubComp).Parse", 0, 0).ID &&
+//@        evCount("select") == ite(evRet[bool]("(*signaller).PubComp", 0, 1), 1, 0) && evCount("send") == 0 &&
+//@        (evCount("select") == 1 ==> evArg[chan *pktPubComp]("select", 0, 0) == evRet[chan *pktPubComp]("(*signaller).PubComp", 0, 0) &&
+//@             (evRet[int]("select", 0, 0) == 0 ==> evRet[*pktPubComp]("select", 0, 1) == evRet[*pktPubComp]("(*pktPubComp).Parse", 0, 0)))
+//@   loop 1 iter[C07] ack_suback: itRead() && itType() == packetSubAck ==>
+//@        evCount("(*signaller).SubAck") == 1 && evArg[uint16]("(*signaller).SubAck", 0, 1) == evRet[*pktSubAck]("(*pktSubAck).Parse", 0, 0).ID &&
+//@        evCount("select") == ite(evRet[bool]("(*signaller).SubAck", 0, 1), 1, 0) && evCount("send") == 0 &&
+//@        (evCount("select") == 1 ==> evArg[chan *pktSubAck]("select", 0, 0) == evRet[chan *pktSubAck]("(*signaller).SubAck", 0, 0) &&
+//@             (evRet[int]("select", 0, 0) == 0 ==> evRet[*pktSubAck]("select", 0, 1) == evRet[*pktSubAck]("(*pktSubAck).Parse", 0, 0)))
+//@   loop 1 iter[C07] ack_unsuback: itRead() && itType() == packetUnsubAck ==>
+//@        evCount("(*signaller).UnsubAck") == 1 && evArg[uint16]("(*signaller).UnsubAck", 0, 1) == evRet[*pktUnsubAck]("(*pktUnsubAck).Parse", 0, 0).ID &&
+//@        evCount("select") == ite(evRet[bool]("(*signaller).UnsubAck", 0, 1), 1, 0) && evCount("send") == 0 &&
+//@        (evCount("select") == 1 ==> evArg[chan *pktUnsubAck]("select", 0, 0) == evRet[chan *pktUnsubAck]("(*signaller).UnsubAck", 0, 0) &&
+//@             (evRet[int]("select", 0, 0) == 0 ==> evRet[*pktUnsubAck]("select", 0, 1) == evRet[*pktUnsubAck]("(*pktUnsubAck).Parse", 0, 0)))
